@@ -47,26 +47,26 @@ func reg(id string, c propCfg) { props[id] = c }
 
 func init() {
 	m := time.Minute
-	reg("C01", propCfg{Quick: tierCfg{Checks: 4000, Timeout: 8 * m}, Thor: tierCfg{Checks: 300000, Timeout: 60 * m, FuzzTime: 4 * m}, Fuzz: []string{"FuzzLoad"}})
-	reg("C02", propCfg{Quick: tierCfg{Checks: 200000, Timeout: 8 * m}, Thor: tierCfg{Checks: 3000000, Timeout: 60 * m, FuzzTime: 3 * m}, Fuzz: []string{"FuzzParse"}})
-	reg("C03", propCfg{Quick: tierCfg{Checks: 200000, Timeout: 8 * m}, Thor: tierCfg{Checks: 2000000, Timeout: 60 * m, FuzzTime: 3 * m}, Fuzz: []string{"FuzzBuild"}})
-	reg("C04", propCfg{Quick: tierCfg{Checks: 6000, Timeout: 8 * m}, Thor: tierCfg{Checks: 500000, Timeout: 60 * m}})
-	reg("C05", propCfg{NeedCLI: true, Quick: tierCfg{Checks: 2000, Timeout: 8 * m}, Thor: tierCfg{Checks: 40000, Timeout: 60 * m}})
-	reg("C06", propCfg{Quick: tierCfg{Checks: 5000, Timeout: 8 * m}, Thor: tierCfg{Checks: 400000, Timeout: 60 * m}})
-	reg("C07", propCfg{Quick: tierCfg{Checks: 3000, Timeout: 8 * m}, Thor: tierCfg{Checks: 300000, Timeout: 60 * m}})
-	reg("C08", propCfg{Quick: tierCfg{Checks: 5000, Timeout: 8 * m}, Thor: tierCfg{Checks: 400000, Timeout: 60 * m}})
-	reg("C09", propCfg{Quick: tierCfg{Checks: 6000, Timeout: 8 * m}, Thor: tierCfg{Checks: 500000, Timeout: 60 * m}})
-	reg("C10", propCfg{Quick: tierCfg{Checks: 200000, Timeout: 8 * m}, Thor: tierCfg{Checks: 6000000, Timeout: 60 * m}})
-	reg("C11", propCfg{Quick: tierCfg{Checks: 4000, Timeout: 8 * m}, Thor: tierCfg{Checks: 400000, Timeout: 60 * m}})
-	reg("C12", propCfg{Quick: tierCfg{Checks: 6000, Timeout: 8 * m}, Thor: tierCfg{Checks: 500000, Timeout: 60 * m}})
-	reg("C13", propCfg{Quick: tierCfg{Checks: 3000, Timeout: 8 * m}, Thor: tierCfg{Checks: 200000, Timeout: 60 * m}})
-	reg("C14", propCfg{Quick: tierCfg{Checks: 20000, Timeout: 8 * m}, Thor: tierCfg{Checks: 2000000, Timeout: 60 * m}})
-	reg("C15", propCfg{Quick: tierCfg{Checks: 100000, Timeout: 8 * m}, Thor: tierCfg{Checks: 5000000, Timeout: 60 * m}})
-	reg("C16", propCfg{Quick: tierCfg{Checks: 100000, Timeout: 8 * m}, Thor: tierCfg{Checks: 2000000, Timeout: 60 * m}})
-	reg("C17", propCfg{Quick: tierCfg{Checks: 4000, Timeout: 8 * m}, Thor: tierCfg{Checks: 300000, Timeout: 60 * m}})
-	reg("C18", propCfg{Quick: tierCfg{Checks: 2000, Timeout: 8 * m}, Thor: tierCfg{Checks: 150000, Timeout: 60 * m}})
-	reg("C19", propCfg{Race: true, Quick: tierCfg{Checks: 160, Shards: 4, Timeout: 8 * m}, Thor: tierCfg{Checks: 6000, Shards: 4, Timeout: 60 * m}})
-	reg("C20", propCfg{Quick: tierCfg{Checks: 40000, Timeout: 8 * m}, Thor: tierCfg{Checks: 4000000, Timeout: 60 * m}})
+	reg("C01", propCfg{Quick: tierCfg{Checks: 40000, Timeout: 8 * m}, Thor: tierCfg{Checks: 3000000, Timeout: 90 * m, FuzzTime: 4 * m}, Fuzz: []string{"FuzzLoad"}})
+	reg("C02", propCfg{Quick: tierCfg{Checks: 200000, Timeout: 8 * m}, Thor: tierCfg{Checks: 30000000, Timeout: 90 * m, FuzzTime: 3 * m}, Fuzz: []string{"FuzzParse"}})
+	reg("C03", propCfg{Quick: tierCfg{Checks: 200000, Timeout: 8 * m}, Thor: tierCfg{Checks: 10000000, Timeout: 90 * m, FuzzTime: 3 * m}, Fuzz: []string{"FuzzBuild"}})
+	reg("C04", propCfg{Quick: tierCfg{Checks: 30000, Timeout: 8 * m}, Thor: tierCfg{Checks: 2500000, Timeout: 90 * m}})
+	reg("C05", propCfg{NeedCLI: true, Quick: tierCfg{Checks: 4000, Timeout: 8 * m}, Thor: tierCfg{Checks: 200000, Timeout: 90 * m}})
+	reg("C06", propCfg{Quick: tierCfg{Checks: 25000, Timeout: 8 * m}, Thor: tierCfg{Checks: 2000000, Timeout: 90 * m}})
+	reg("C07", propCfg{Quick: tierCfg{Checks: 15000, Timeout: 8 * m}, Thor: tierCfg{Checks: 1000000, Timeout: 90 * m}})
+	reg("C08", propCfg{Quick: tierCfg{Checks: 12000, Timeout: 8 * m}, Thor: tierCfg{Checks: 800000, Timeout: 90 * m}})
+	reg("C09", propCfg{Quick: tierCfg{Checks: 30000, Timeout: 8 * m}, Thor: tierCfg{Checks: 2000000, Timeout: 90 * m}})
+	reg("C10", propCfg{Quick: tierCfg{Checks: 200000, Timeout: 8 * m}, Thor: tierCfg{Checks: 30000000, Timeout: 90 * m}})
+	reg("C11", propCfg{Quick: tierCfg{Checks: 8000, Timeout: 8 * m}, Thor: tierCfg{Checks: 600000, Timeout: 90 * m}})
+	reg("C12", propCfg{Quick: tierCfg{Checks: 30000, Timeout: 8 * m}, Thor: tierCfg{Checks: 2000000, Timeout: 90 * m}})
+	reg("C13", propCfg{Quick: tierCfg{Checks: 12000, Timeout: 8 * m}, Thor: tierCfg{Checks: 300000, Timeout: 90 * m}})
+	reg("C14", propCfg{Quick: tierCfg{Checks: 100000, Timeout: 8 * m}, Thor: tierCfg{Checks: 20000000, Timeout: 90 * m}})
+	reg("C15", propCfg{Quick: tierCfg{Checks: 100000, Timeout: 8 * m}, Thor: tierCfg{Checks: 50000000, Timeout: 90 * m}})
+	reg("C16", propCfg{Quick: tierCfg{Checks: 100000, Timeout: 8 * m}, Thor: tierCfg{Checks: 10000000, Timeout: 90 * m}})
+	reg("C17", propCfg{Quick: tierCfg{Checks: 12000, Timeout: 8 * m}, Thor: tierCfg{Checks: 1000000, Timeout: 90 * m}})
+	reg("C18", propCfg{Quick: tierCfg{Checks: 12000, Timeout: 8 * m}, Thor: tierCfg{Checks: 1000000, Timeout: 90 * m}})
+	reg("C19", propCfg{Race: true, Quick: tierCfg{Checks: 160, Shards: 4, Timeout: 8 * m}, Thor: tierCfg{Checks: 6000, Shards: 4, Timeout: 90 * m}})
+	reg("C20", propCfg{Quick: tierCfg{Checks: 400000, Timeout: 8 * m}, Thor: tierCfg{Checks: 40000000, Timeout: 90 * m}})
 }
 
 func getenv(k, d string) string {
@@ -640,13 +640,15 @@ type partial struct {
 	Assumptions  []string          `json:"assumptions"`
 	WallS        float64           `json:"wall_s"`
 	HashFile     string            `json:"hash_file"`
+	HashCapped   bool              `json:"hash_capped"`
 }
 
 func writeEvidence(file, id, tier string, seed int64, parts []partial, shards int, wall float64, nviol int, fuzzExecs map[string]int64, timedOut bool) {
 	cov := map[string]any{}
 	var evals, corpus, enum, random, nt int64
 	classes, ooc, known := map[string]int64{}, map[string]int64{}, map[string]int64{}
-	hashes := map[uint64]struct{}{}
+	var hashList []uint64
+	capped := false
 	var samples []any
 	enumComplete, hasEnum := true, false
 	extra := map[string]any{}
@@ -674,8 +676,11 @@ func writeEvidence(file, id, tier string, seed int64, parts []partial, shards in
 		}
 		if b, err := os.ReadFile(p.HashFile); err == nil {
 			for i := 0; i+8 <= len(b); i += 8 {
-				hashes[binary.LittleEndian.Uint64(b[i:])] = struct{}{}
+				hashList = append(hashList, binary.LittleEndian.Uint64(b[i:]))
 			}
+		}
+		if p.HashCapped {
+			capped = true
 		}
 		for k, v := range p.Extra {
 			switch x := v.(type) {
@@ -711,7 +716,17 @@ func writeEvidence(file, id, tier string, seed int64, parts []partial, shards in
 	}
 	p0 := parts[0]
 	cov["evaluations"] = evals
-	cov["distinct_nontrivial"] = len(hashes)
+	sort.Slice(hashList, func(i, j int) bool { return hashList[i] < hashList[j] })
+	distinct := 0
+	for i, h := range hashList {
+		if i == 0 || h != hashList[i-1] {
+			distinct++
+		}
+	}
+	cov["distinct_nontrivial"] = distinct
+	if capped {
+		cov["distinct_nontrivial_is_lower_bound"] = true
+	}
 	cov["nontrivial_evaluations"] = nt
 	cov["rule"] = p0.Rule
 	cov["samples"] = samples
